@@ -312,6 +312,8 @@ func C02(o *core.Options) int {
 	lap("reducers")
 	c02FastPaths(o, r)
 	lap("fastpaths")
+	c02Wide(o, r)
+	lap("listobjects-wide")
 	so := e2.SweepOpts{K: 2, ServerOpts: []server.OpenFGAServiceV1Option{server.WithRequestTimeout(0)}}
 	// chains with a leftover tuple: recursive relations over THREE objects, two valid tuples and one stored tuple
 	// that the model in use does not admit (it differs from an admitted one in its condition, shape or type; it
@@ -346,7 +348,9 @@ func C02(o *core.Options) int {
 			return
 		}
 		lf, a, b := w.Tuples[2], w.Tuples[0], w.Tuples[1]
-		chain := func(t1, t2 ref.Tuple) bool { return objOf(t1.User) == lf.Obj && objOf(lf.User) == t2.Obj && t1.Obj != t2.Obj }
+		chain := func(t1, t2 ref.Tuple) bool {
+			return objOf(t1.User) == lf.Obj && objOf(lf.User) == t2.Obj && t1.Obj != t2.Obj
+		}
 		if !chain(a, b) && !chain(b, a) {
 			return
 		}
@@ -403,86 +407,7 @@ func compact(s []string) []string {
 
 // c02ListObjects: the set returned by ListObjects must not depend on engine or tuning.
 func c02ListObjects(o *core.Options, r *core.Report, models []*ref.Model) {
-	type tun struct {
-		name string
-		opts []server.OpenFGAServiceV1Option
-	}
-	tunings := []tun{
-		{"default", nil},
-		{"breadth1-reads1", []server.OpenFGAServiceV1Option{server.WithResolveNodeBreadthLimit(1), server.WithMaxConcurrentReadsForListObjects(1), server.WithMaxConcurrentReadsForCheck(1)}},
-		{"pipeline-1-1-1", []server.OpenFGAServiceV1Option{server.WithListObjectsPipelineEnabled(true), server.WithListObjectsChunkSize(1), server.WithListObjectsBufferCapacity(1), server.WithListObjectsNumProcs(1)}},
-		{"pipeline-2-2-3", []server.OpenFGAServiceV1Option{server.WithListObjectsPipelineEnabled(true), server.WithListObjectsChunkSize(2), server.WithListObjectsBufferCapacity(2), server.WithListObjectsNumProcs(3)}},
-		{"weighted", []server.OpenFGAServiceV1Option{server.WithExperimentals("enable-list-objects-optimizations")}},
-	}
-	// wide recursive worlds: far more objects than any internal buffer of the small tunings holds (queues, chunks,
-	// breadth limits): a recursive tuple-to-userset with N children of one root, the same two levels deep, and a
-	// recursive userset with N groups under one root; the result must be complete and equal for every tuning
-	{
-		user := ref.Restr{Type: "user"}
-		mt := &ref.Model{Types: map[string]map[string]*ref.RelDef{"user": {}, "doc": {"parent": rd(ref.This(), ref.Restr{Type: "doc"}), "r0": rd(ref.Bin(ref.KUnion, ref.This(), ref.TTU("parent", "r0")), user)}}}
-		mg := &ref.Model{Types: map[string]map[string]*ref.RelDef{"user": {}, "group": {"member": rd(ref.This(), user, ref.Restr{Type: "group", Rel: "member"})}}}
-		type wide struct {
-			name     string
-			m        *ref.Model
-			typ, rel string
-			ts       []ref.Tuple
-			want     []string
-		}
-		var ws []wide
-		sizes := []int{40, 300}
-		for _, n := range sizes {
-			a := wide{name: fmt.Sprintf("ttu-fan-out-%d", n), m: mt, typ: "doc", rel: "r0", ts: []ref.Tuple{{Obj: "doc:root", Rel: "r0", User: "user:a"}}, want: []string{"doc:root"}}
-			b := wide{name: fmt.Sprintf("userset-fan-out-%d", n), m: mg, typ: "group", rel: "member", ts: []ref.Tuple{{Obj: "group:root", Rel: "member", User: "user:a"}}, want: []string{"group:root"}}
-			for i := 0; i < n; i++ {
-				a.ts = append(a.ts, ref.Tuple{Obj: fmt.Sprintf("doc:c%03d", i), Rel: "parent", User: "doc:root"})
-				a.want = append(a.want, fmt.Sprintf("doc:c%03d", i))
-				b.ts = append(b.ts, ref.Tuple{Obj: fmt.Sprintf("group:c%03d", i), Rel: "member", User: "group:root#member"})
-				b.want = append(b.want, fmt.Sprintf("group:c%03d", i))
-			}
-			ws = append(ws, a, b)
-		}
-		two := wide{name: "ttu-two-levels-20x15", m: mt, typ: "doc", rel: "r0", ts: []ref.Tuple{{Obj: "doc:root", Rel: "r0", User: "user:a"}}, want: []string{"doc:root"}}
-		for i := 0; i < 20; i++ {
-			mid := fmt.Sprintf("doc:m%02d", i)
-			two.ts = append(two.ts, ref.Tuple{Obj: mid, Rel: "parent", User: "doc:root"})
-			two.want = append(two.want, mid)
-			for j := 0; j < 15; j++ {
-				leaf := fmt.Sprintf("doc:l%02d-%02d", i, j)
-				two.ts = append(two.ts, ref.Tuple{Obj: leaf, Rel: "parent", User: mid})
-				two.want = append(two.want, leaf)
-			}
-		}
-		ws = append(ws, two)
-		r.Parallel(len(ws)*len(tunings), func(k int) {
-			w, t := ws[k/len(tunings)], tunings[k%len(tunings)]
-			env, err := e2.NewEnv(w.m, append([]server.OpenFGAServiceV1Option{server.WithRequestTimeout(0), server.WithListObjectsMaxResults(5000), server.WithListObjectsDeadline(20 * time.Second)}, t.opts...)...)
-			if err != nil {
-				return
-			}
-			defer env.Close()
-			for at := 0; at < len(w.ts); at += 90 {
-				end := at + 90
-				if end > len(w.ts) {
-					end = len(w.ts)
-				}
-				if err := env.Write(w.ts[at:end], env.ModelID); err != nil {
-					panic(err)
-				}
-			}
-			got, err := env.ListObjects(w.typ, w.rel, "user:a", nil, nil)
-			r.Eval(1)
-			r.Count("listobjects_wide_worlds", 1)
-			r.Nontrivial(core.Hash("c02wide", w.name, t.name))
-			want := append([]string{}, w.want...)
-			sort.Strings(want)
-			g := append([]string{}, got...)
-			sort.Strings(g)
-			if err != nil || strings.Join(g, ",") != strings.Join(want, ",") {
-				r.Violate("listobjects-wide-world-incomplete-or-failed/"+t.name, fmt.Sprintf("ListObjects(%s#%s@user:a) on %s with tuning %s: %d of %d objects (err=%v)", w.typ, w.rel, w.name, t.name, len(g), len(want), err),
-					map[string]any{"world": w.name, "tuning": t.name, "got": len(g), "want": len(want)})
-			}
-		})
-	}
+	tunings := c02Tunings()
 	sub := models
 	if !o.Thorough() && len(sub) > 20 {
 		sub = sub[:20]
@@ -719,4 +644,93 @@ func operandOrderModels() []*ref.Model {
 			&ref.Model{Types: map[string]map[string]*ref.RelDef{"user": {}, "group": group(), "doc": {"parent": rd(ref.This(), ref.Restr{Type: "group"}), "r0": rd(ref.TTU("parent", "member")), "r1": rd(ref.This(), user)}}})
 	}
 	return out
+}
+
+type c02Tun struct {
+	name string
+	opts []server.OpenFGAServiceV1Option
+}
+
+func c02Tunings() []c02Tun {
+	return []c02Tun{
+		{"default", nil},
+		{"breadth1-reads1", []server.OpenFGAServiceV1Option{server.WithResolveNodeBreadthLimit(1), server.WithMaxConcurrentReadsForListObjects(1), server.WithMaxConcurrentReadsForCheck(1)}},
+		{"pipeline-1-1-1", []server.OpenFGAServiceV1Option{server.WithListObjectsPipelineEnabled(true), server.WithListObjectsChunkSize(1), server.WithListObjectsBufferCapacity(1), server.WithListObjectsNumProcs(1)}},
+		{"pipeline-2-2-3", []server.OpenFGAServiceV1Option{server.WithListObjectsPipelineEnabled(true), server.WithListObjectsChunkSize(2), server.WithListObjectsBufferCapacity(2), server.WithListObjectsNumProcs(3)}},
+		{"weighted", []server.OpenFGAServiceV1Option{server.WithExperimentals("enable-list-objects-optimizations")}},
+	}
+}
+
+// c02Wide: ListObjects on wide recursive worlds under every tuning (see the comment inside).
+func c02Wide(o *core.Options, r *core.Report) {
+	tunings := c02Tunings()
+	// wide recursive worlds: far more objects than any internal buffer of the small tunings holds (queues, chunks,
+	// breadth limits): a recursive tuple-to-userset with N children of one root, the same two levels deep, and a
+	// recursive userset with N groups under one root; the result must be complete and equal for every tuning
+	{
+		user := ref.Restr{Type: "user"}
+		mt := &ref.Model{Types: map[string]map[string]*ref.RelDef{"user": {}, "doc": {"parent": rd(ref.This(), ref.Restr{Type: "doc"}), "r0": rd(ref.Bin(ref.KUnion, ref.This(), ref.TTU("parent", "r0")), user)}}}
+		mg := &ref.Model{Types: map[string]map[string]*ref.RelDef{"user": {}, "group": {"member": rd(ref.This(), user, ref.Restr{Type: "group", Rel: "member"})}}}
+		type wide struct {
+			name     string
+			m        *ref.Model
+			typ, rel string
+			ts       []ref.Tuple
+			want     []string
+		}
+		var ws []wide
+		sizes := []int{40, 300}
+		for _, n := range sizes {
+			a := wide{name: fmt.Sprintf("ttu-fan-out-%d", n), m: mt, typ: "doc", rel: "r0", ts: []ref.Tuple{{Obj: "doc:root", Rel: "r0", User: "user:a"}}, want: []string{"doc:root"}}
+			b := wide{name: fmt.Sprintf("userset-fan-out-%d", n), m: mg, typ: "group", rel: "member", ts: []ref.Tuple{{Obj: "group:root", Rel: "member", User: "user:a"}}, want: []string{"group:root"}}
+			for i := 0; i < n; i++ {
+				a.ts = append(a.ts, ref.Tuple{Obj: fmt.Sprintf("doc:c%03d", i), Rel: "parent", User: "doc:root"})
+				a.want = append(a.want, fmt.Sprintf("doc:c%03d", i))
+				b.ts = append(b.ts, ref.Tuple{Obj: fmt.Sprintf("group:c%03d", i), Rel: "member", User: "group:root#member"})
+				b.want = append(b.want, fmt.Sprintf("group:c%03d", i))
+			}
+			ws = append(ws, a, b)
+		}
+		two := wide{name: "ttu-two-levels-20x15", m: mt, typ: "doc", rel: "r0", ts: []ref.Tuple{{Obj: "doc:root", Rel: "r0", User: "user:a"}}, want: []string{"doc:root"}}
+		for i := 0; i < 20; i++ {
+			mid := fmt.Sprintf("doc:m%02d", i)
+			two.ts = append(two.ts, ref.Tuple{Obj: mid, Rel: "parent", User: "doc:root"})
+			two.want = append(two.want, mid)
+			for j := 0; j < 15; j++ {
+				leaf := fmt.Sprintf("doc:l%02d-%02d", i, j)
+				two.ts = append(two.ts, ref.Tuple{Obj: leaf, Rel: "parent", User: mid})
+				two.want = append(two.want, leaf)
+			}
+		}
+		ws = append(ws, two)
+		r.Parallel(len(ws)*len(tunings), func(k int) {
+			w, t := ws[k/len(tunings)], tunings[k%len(tunings)]
+			env, err := e2.NewEnv(w.m, append([]server.OpenFGAServiceV1Option{server.WithRequestTimeout(0), server.WithListObjectsMaxResults(5000), server.WithListObjectsDeadline(20 * time.Second)}, t.opts...)...)
+			if err != nil {
+				return
+			}
+			defer env.Close()
+			for at := 0; at < len(w.ts); at += 90 {
+				end := at + 90
+				if end > len(w.ts) {
+					end = len(w.ts)
+				}
+				if err := env.Write(w.ts[at:end], env.ModelID); err != nil {
+					panic(err)
+				}
+			}
+			got, err := env.ListObjects(w.typ, w.rel, "user:a", nil, nil)
+			r.Eval(1)
+			r.Count("listobjects_wide_worlds", 1)
+			r.Nontrivial(core.Hash("c02wide", w.name, t.name))
+			want := append([]string{}, w.want...)
+			sort.Strings(want)
+			g := append([]string{}, got...)
+			sort.Strings(g)
+			if err != nil || strings.Join(g, ",") != strings.Join(want, ",") {
+				r.Violate("listobjects-wide-world-incomplete-or-failed/"+t.name, fmt.Sprintf("ListObjects(%s#%s@user:a) on %s with tuning %s: %d of %d objects (err=%v)", w.typ, w.rel, w.name, t.name, len(g), len(want), err),
+					map[string]any{"world": w.name, "tuning": t.name, "got": len(g), "want": len(want)})
+			}
+		})
+	}
 }
